@@ -120,7 +120,9 @@ pub fn pad_banks(board: &str, dev: u32, mac: [u8; 6], chip: u8, chans: &[(u16, V
         cell: 0,
         req,
         sent: c.iter().map(|x| x.0).collect(),
-        thr: c.iter().map(|x| x.0).collect(),
+        // the over-threshold mask is independent of what is sent (forced readout): here every other sent channel
+        // when `evt` is odd, none when it is a multiple of 4, all otherwise
+        thr: c.iter().enumerate().filter(|(i, _)| if evt % 2 == 1 { i % 2 == 0 } else { evt % 4 != 0 }).map(|(_, x)| x.0).collect(),
         evt,
         fifo: 0,
         wd: 0,
